@@ -364,6 +364,23 @@ func c06Levels(tier string) []core.Level {
 				}
 			}
 		}},
+		{Name: "loop metadata read from outside the body's text: by a registered filter, test, function and filter section looking at the scope, and by a block of the body overridden in a child template (also inside an outer loop)", Gen: func(emit func(core.Case)) {
+			for i := 0; i < 6; i++ {
+				emit(core.Case{Fam: "indirect", N: []int{i}})
+			}
+		}},
+		{Name: "size: four loop / branch constructs after n = 0..1500 simple prints in three token alignments", Gen: func(emit func(core.Case)) {
+			for which := 0; which < 4; which++ {
+				for lead := 0; lead < 3; lead++ {
+					for n := 0; n <= 1500; n++ {
+						if which > 0 && n < 300 {
+							continue
+						}
+						emit(core.Case{Fam: "padded", N: []int{n, lead, which}})
+					}
+				}
+			}
+		}},
 		{Name: "loops inside branches and branches inside loops (depth 3 mixes)", Gen: func(emit func(core.Case)) {
 			for n := 0; n <= 3; n++ {
 				for m := 0; m < 1<<uint(n+1); m++ {
@@ -541,6 +558,77 @@ func c06Run(c core.Case) core.Result {
 			sat = []stick.Value{}
 		}
 		return c06Compare("("+head+"{% endfor %})", map[string]stick.Value{"sat": sat}, "("+want+")", n > 0)
+	case "indirect":
+		// loop metadata read by code that is not written in the loop body: a registered filter / test / function
+		// looking at the scope, and a block in the body that a child template overrides
+		tpls := map[string]string{
+			"base":   "{% for v in [5, 6, 7] %}[{% block cell %}-{% endblock %}]{% endfor %}",
+			"child":  "{% extends 'base' %}{% block cell %}{{ loop.index }}/{{ loop.length }}{% if loop.last %}L{% endif %}{% endblock %}",
+			"outer":  "{% for o in [1, 2] %}<{% for v in [5, 6, 7] %}[{% block cell %}-{% endblock %}]{% endfor %}>{% endfor %}",
+			"child2": "{% extends 'outer' %}{% block cell %}{{ loop.parent.index }}.{{ loop.index }}{% endblock %}",
+			"filt":   "{% for v in [5, 6, 7] %}{{ v|lpf }},{% endfor %}|{% for o in [1, 2] %}{% for v in [5, 6] %}{{ v|lpf }}{% endfor %};{% endfor %}",
+			"test":   "{% for v in [5, 6, 7] %}{% if v is lastone %}L{% else %}n{% endif %}{% endfor %}",
+			"fn":     "{% for v in [5, 6, 7] %}{{ lpfn() }}{% endfor %}",
+			"sect":   "{% for v in [5, 6, 7] %}{% filter lpf %}x{% endfilter %},{% endfor %}",
+		}
+		want := map[string]string{"child": "[1/3][2/3][3/3L]", "child2": "<[1.1][1.2][1.3]><[2.1][2.2][2.3]>", "filt": "1:5,2:6,3:7,|1:52:6;1:52:6;", "test": "nnL", "fn": "1/32/33/3", "sect": "1:x,2:x,3:x,"}
+		names := []string{"child", "child2", "filt", "test", "fn", "sect"}
+		name := names[c.N[0]]
+		env := stick.New(&stick.MemoryLoader{Templates: tpls})
+		loopOf := func(ctx stick.Context) (map[string]stick.Value, bool) {
+			l, ok := ctx.Scope().Get("loop")
+			m, isMap := l.(map[string]stick.Value)
+			return m, ok && isMap
+		}
+		env.Filters["lpf"] = func(ctx stick.Context, v stick.Value, args ...stick.Value) stick.Value {
+			if l, ok := loopOf(ctx); ok {
+				return stick.CoerceString(l["index"]) + ":" + stick.CoerceString(v)
+			}
+			return "?:" + stick.CoerceString(v)
+		}
+		env.Tests["lastone"] = func(ctx stick.Context, v stick.Value, args ...stick.Value) bool {
+			l, ok := loopOf(ctx)
+			return ok && stick.CoerceBool(l["last"])
+		}
+		env.Functions["lpfn"] = func(ctx stick.Context, args ...stick.Value) stick.Value {
+			if l, ok := loopOf(ctx); ok {
+				return stick.CoerceString(l["index"]) + "/" + stick.CoerceString(l["length"])
+			}
+			return "?"
+		}
+		out, err, pan := tryExec(env, name, nil)
+		if pan != "" || err != nil {
+			return core.Violation("error", fmt.Sprintf("%s = %q: %v %s", name, tpls[name], err, pan))
+		}
+		if out != want[name] {
+			return core.Violation("output", fmt.Sprintf("%s = %q (base %q) renders %q, want %q", name, tpls[name], tpls["base"], out, want[name]))
+		}
+		return core.Okay(true, out)
+	case "padded":
+		// the same small construct after n simple prints (n up to 1500, three alignments): its meaning does not depend
+		// on how many tokens precede it (bounded token histories, block-wise buffers)
+		n, lead, which := c.N[0], []string{"", "x", "{{ a }}"}[c.N[1]], c.N[2]
+		leadOut := []string{"", "x", "3"}[c.N[1]]
+		cons := []c08SO{
+			{"{% for v in [1, 2] %}<{% if v == 1 %}A{% else %}B{% endif %}>{% else %}E{% endfor %}", "<A><B>"},
+			{"{% for v in [] %}x{% else %}{% if a %}E{{ a }}{% endif %}{% endfor %}", "E3"},
+			{"{% if z %}n{% elseif a %}{% for k, v in [7] %}{{ k }}={{ v }}{% if loop.last %}!{% endif %}{% endfor %}{% else %}e{% endif %}", "0=7!"},
+			{"{% for v in [1] %}{% for w in [2, 3] %}{{ loop.parent.index }}{{ loop.index }}{% if w == 3 %}.{% endif %}{% endfor %}{% endfor %}", "1112."},
+		}[which]
+		src := lead + strings.Repeat("{{a}}", n) + cons.src + "{{a}}"
+		want := leadOut + strings.Repeat("3", n) + cons.out + "3"
+		out, err, pan := c06Exec(src, map[string]stick.Value{"a": 3, "z": 0})
+		desc := fmt.Sprintf("%q + {{a}} x %d + %q", lead, n, cons.src)
+		if pan != "" {
+			return core.Violation("panic", desc+" panicked: "+pan)
+		}
+		if err != nil {
+			return core.Violation("error", fmt.Sprintf("%s does not render: %v", desc, err))
+		}
+		if out != want {
+			return core.Violation("output", fmt.Sprintf("%s renders ...%q, want ...%q", desc, tail(out, 40), tail(want, 40)))
+		}
+		return core.Okay(true, cons.out)
 	case "noniter":
 		vals := []stick.Value{5, "str", true, 2.5, stdObj{"o"}, &stdObj{"p"}}
 		src := "a{% for v in x %}b{% endfor %}c"
@@ -624,4 +712,11 @@ func init() {
 		NoDedup: true,
 		Budget:  budget(3*time.Minute, 10*time.Minute),
 	})
+}
+
+func tail(s string, n int) string {
+	if len(s) <= n {
+		return s
+	}
+	return s[len(s)-n:]
 }
